@@ -100,3 +100,38 @@ M('selector_count_ge', ['C17'], 'phylib/io/array.py',
   "len(spike_ids) > n_spk_clu:\n                spike_ids = np.random.choice(spike_ids, max(1, n_spk_clu - 1), replace=False)")
 M('selector_subset_ignored_when_chunks', ['C17'], 'phylib/io/array.py',
   "            if subset_spikes is not None:\n", "            if subset_spikes is not None and not subset_chunks:\n")
+# ---- C18 -----------------------------------------------------------------------------------
+M('json_small_array_threshold', ['C18'], 'phylib/utils/_misc.py',
+  "obj.ndim == 1 and obj.shape[0] <= 10:", "obj.ndim == 1 and obj.shape[0] <= 11:")
+M('json_no_contiguous', ['C18'], 'phylib/utils/_misc.py',
+  "obj_contiguous = np.ascontiguousarray(obj)", "obj_contiguous = obj if obj.flags['F_CONTIGUOUS'] else np.ascontiguousarray(obj)")
+M('json_shape_dropped_0d', ['C18'], 'phylib/utils/_misc.py',
+  "return np.frombuffer(data, d['dtype']).reshape(d['shape'])", "return np.frombuffer(data, d['dtype']).reshape(d['shape'] or (1,))")
+M('tsv_number_order', ['C18'], 'phylib/utils/_misc.py',
+  "    try:\n        return int(value)\n    except ValueError:\n        try:\n            return float(value)",
+  "    try:\n        return float(value)\n    except ValueError:\n        try:\n            return int(value)")
+M('tsv_delimiter_sniff', ['C18'], 'phylib/utils/_misc.py',
+  "    with path.open('r') as f:\n        delimiter = '\\t' if '\\t' in f.readline() else ','\n    with path.open('r') as f:\n        reader = csv.reader(f, delimiter=delimiter)\n        # Skip the header.\n        field_names",
+  "    with path.open('r') as f:\n        delimiter = '\\t' if '\\t' in f.read() else ','\n    with path.open('r') as f:\n        reader = csv.reader(f, delimiter=delimiter)\n        # Skip the header.\n        field_names")
+M('write_python_str_quote', ['C18'], 'phylib/utils/_misc.py',
+  "                v = '\"%s\"' % v", "                v = '\"%s\"' % v.strip()")
+M('tsv_simple_sorted_str', ['C18'], 'phylib/utils/_misc.py',
+  "            cluster_id = int(cluster_id)\n", "            cluster_id = abs(int(cluster_id))\n")
+# ---- C19 -----------------------------------------------------------------------------------
+M('emit_last_not_partitioned', ['C19'], 'phylib/utils/event.py',
+  "        callbacks += [c for c in self._callbacks if c[-1].get('last', None)]", "        callbacks = list(self._callbacks)")
+M('emit_sender_filter_or', ['C19'], 'phylib/utils/event.py',
+  "if e == event and (s is None or s == sender):", "if e == event or (s is not None and s == sender):")
+M('emit_single_returns_list', ['C19'], 'phylib/utils/event.py',
+  "                    return res[-1]", "                    return res")
+M('unconnect_owner_ignored', ['C19'], 'phylib/utils/event.py',
+  "            if f not in items and sender not in items and\n            getattr(f, '__self__', None) not in items]",
+  "            if f not in items and sender not in items]")
+M('silent_no_finally', ['C19'], 'phylib/utils/event.py',
+  "        try:\n            yield\n        finally:\n            self.is_silent = is_silent", "        yield\n        self.is_silent = is_silent")
+M('progress_rearm_on_lower_max', ['C19'], 'phylib/utils/event.py',
+  "        if value_max > self._value_max:\n            self._has_completed = False", "        if value_max != self._value_max:\n            self._has_completed = False")
+M('progress_complete_gt', ['C19'], 'phylib/utils/event.py',
+  "if not self._has_completed and self._value >= self._value_max:", "if not self._has_completed and self._value > self._value_max:")
+M('emit_kwargs_single_leak', ['C19'], 'phylib/utils/event.py',
+  "        single = kwargs.pop('single', None)", "        single = kwargs.get('single', None)")
